@@ -67,6 +67,22 @@ def layout_words(fields):
     return out
 
 
+def _poly_calls(e, env, conv, atomz):
+    """to_poly with a hook that replaces call nodes by polynomials"""
+    from ..sizealg import to_poly
+    table = {}
+
+    def atomize(n):
+        r_ = conv(n)
+        if r_ is not None:
+            key = '@call%d' % len(table)
+            table[key] = r_
+            return key
+        return atomz(n)
+    p_ = to_poly(e, env, atomize=atomize)
+    return p_.subst(table) if table else p_
+
+
 def check_idwords_stepid(ctx, only_stepid=False):
     src = ctx.src
     for fmt, cls in (('temperature', 'temperature'), ('height_pressure', 'height_pressure'), ('one3d', 'one3d')):
@@ -214,6 +230,46 @@ def run(ctx):
                     ctx.violation(Finding('R-LAYERVAR', rd.relpath, q, api.stmt_of(n),
                                           'record offsets use self.%s here but self.%s for the LAY dimension and the other formulas: for '
                                           'EMISSIONS files (nlayers forced to 1) species/time offsets are computed with the wrong layer count' % (k, major)))
+    # ---------------- R-RECPOS: number of time headers before a record = number of whole steps (size algebra)
+    ctx.rule('R-RECPOS', 'uamiv Read.py: time-header count in the record offset equals the number of whole time steps')
+    from ..sizealg import to_poly
+    tr = rd.func('uamiv.__timerecords')
+    sr = rd.func('uamiv.__spcrecords')
+    lr = rd.func('uamiv.__layerrecords')
+    rpf = rd.func('uamiv.__recordposition')
+
+    def ret_expr(f_):
+        r_ = [s2 for s2 in iter_stmts(f_.body) if isinstance(s2, ast.Return)]
+        return r_[-1].value if r_ else None
+    try:
+        # layerrecords(k) = k - 1 ; spcrecords(spc) = (spc - 1) * layerrecords(nlayers + 1) ; timerecords = nsteps * spcrecords(nspec + 1)
+        lay_p = lambda arg: to_poly(ret_expr(lr), {lr.args.args[1].arg: arg})
+        def atomz(n):
+            if isinstance(n, ast.Attribute) and isinstance(n.value, ast.Name) and n.value.id == 'self':
+                return n.attr
+            return None
+        def spc_p(arg):
+            e = ret_expr(sr)
+            # replace the call self.__layerrecords(X) by its polynomial
+            def conv(n):
+                if isinstance(n, ast.Call) and (dotted(n.func) or '').endswith('__layerrecords'):
+                    return lay_p(to_poly(n.args[0], {}, atomize=atomz))
+                return None
+            return _poly_calls(e, {sr.args.args[1].arg: arg}, conv, atomz)
+        nspec_def = [s2 for s2 in iter_stmts(tr.body) if isinstance(s2, ast.Assign) and norm(s2.targets[0]) == 'nspec'][0]
+        nspec_p = _poly_calls(nspec_def.value, {}, lambda n: spc_p(to_poly(n.args[0], {}, atomize=atomz)) if isinstance(n, ast.Call) and (dotted(n.func) or '').endswith('__spcrecords') else None, atomz)
+        ntime_p = Poly.atom('nsteps') * nspec_p
+        nid_def = [s2 for s2 in iter_stmts(rpf.body) if isinstance(s2, ast.Assign) and norm(s2.targets[0]) == 'nid'][0]
+        nid_p = to_poly(nid_def.value, {'ntime': ntime_p}, atomize=atomz)
+        wrp = 'src/PseudoNetCDF/camxfiles/uamiv/Read.py uamiv.__recordposition'
+        if nid_p == Poly.atom('nsteps'):
+            ctx.ok('R-RECPOS', 'nid', wrp, 'ntime = %s ; nid = %s' % (ntime_p, nid_p))
+        else:
+            ctx.violation(Finding('R-RECPOS', rd.relpath, 'uamiv.__recordposition', nid_def,
+                                  'records before a time step number %s, so the count of time headers %s evaluates to %s instead of the number of whole steps: '
+                                  'offsets of later steps of multi-layer files are wrong' % (ntime_p, norm(nid_def.value), nid_p)))
+    except (IndexError, AttributeError, TypeError) as e:
+        ctx.undec('R-RECPOS', 'nid', 'src/PseudoNetCDF/camxfiles/uamiv/Read.py', 'record arithmetic not extracted: %s' % e)
     # ---------------- R-WINDSTEP
     wr = src.mod(CAMX + 'wind/Read.py')
     rp = wr.func('wind.__recordposition')
@@ -269,6 +325,78 @@ def run(ctx):
             ctx.violation(Finding('R-TIMENORM', tm.relpath, 'timeadd', up if 'eod' in cname else dn,
                                   'for %s the time is not brought into [0, eod): midnight is reported as (date, 2400) by the record readers '
                                   'while the memory-mapped flags say (date + 1, 0)' % cname), oid=cname)
+    # ---------------- R-RANGEEND: the equality-terminated time iteration compares two normalised tuples
+    ctx.rule('R-RANGEEND', 'timerange: both sides of the terminating comparison are normalised with timeadd(.., (0, 0), eod) before the loop')
+    tr_ = tm.func('timerange')
+    wtr = 'src/PseudoNetCDF/camxfiles/timetuple.py timerange'
+    loops = [st for st in tr_.body if isinstance(st, ast.While) and isinstance(st.test, ast.Compare) and isinstance(st.test.ops[0], ast.NotEq)]
+    if not loops:
+        # an ordering comparison terminates for every end; nothing to show
+        ctx.ok('R-RANGEEND', 'loop', wtr, 'no equality-terminated loop')
+    for lp in loops:
+        for side in (lp.test.left, lp.test.comparators[0]):
+            names = [n.id for n in ast.walk(side) if isinstance(n, ast.Name)]
+            normed = []
+            for st in tr_.body:
+                if st is lp:
+                    break
+                if isinstance(st, ast.Assign) and isinstance(st.value, ast.Call) and dotted(st.value.func) == 'timeadd':
+                    normed += [n.id for t in st.targets for n in ast.walk(t) if isinstance(n, ast.Name)]
+            missing = [n for n in names if n not in normed]
+            if missing:
+                ctx.violation(Finding('R-RANGEEND', tm.relpath, 'timerange', lp, 'the loop ends only when %s equals the other tuple exactly, but %s is compared as given (not normalised with '
+                                      'timeadd): an end of (date, eod) - which the one3d-family readers pass for files ending at the last step of a day - is never reached and the '
+                                      'iteration does not terminate' % (norm(side), ', '.join(missing))), oid=norm(side))
+            else:
+                ctx.ok('R-RANGEEND', norm(side), wtr, 'normalised before the loop')
+    # ---------------- R-WINDSCAN: the scan to the next time header skips as many records as were counted between the first two headers
+    ctx.rule('R-WINDSCAN', 'wind Read.py: records skipped between time headers = records counted between the first two headers (2 x layers + dummy)')
+    gt = wr.func('wind.__gettimestep')
+    wgt = 'src/PseudoNetCDF/camxfiles/wind/Read.py wind.__gettimestep'
+    inv = None
+    for st in iter_stmts(gt.body):
+        if isinstance(st, ast.Assign) and norm(st.targets[0]) == 'self.nlayers' and isinstance(st.value, ast.BinOp) and isinstance(st.value.op, ast.FloorDiv) \
+                and isinstance(st.value.right, ast.Constant) and isinstance(st.value.left, ast.BinOp) and isinstance(st.value.left.op, ast.Sub) \
+                and isinstance(st.value.left.left, ast.Name) and isinstance(st.value.left.right, ast.Constant):
+            # L = (R - c) // d   ->   R = d * L + c
+            inv = Poly.atom('L') * st.value.right.value + st.value.left.right.value
+    skips = []
+    for st in iter_stmts(gt.body):
+        if isinstance(st, ast.For) and isinstance(st.iter, ast.Call) and dotted(st.iter.func) == 'range' and len(st.iter.args) == 1 \
+                and any(isinstance(c, ast.Call) and (dotted(c.func) or '').endswith('rffile.next') for c in ast.walk(st)):
+            skips.append(st)
+    if inv is None or not skips:
+        ctx.undec('R-WINDSCAN', 'scan', wgt, 'layer count derivation or skip loop not in the recognised form')
+    else:
+        from ..sizealg import to_poly as _tp
+        for st in skips:
+            got = _tp(st.iter.args[0], {}, atomize=lambda n: 'L' if norm(n) == 'self.nlayers' else None)
+            if got == inv:
+                ctx.ok('R-WINDSCAN', norm(st.iter), wgt, 'skips %s records = records per step' % got)
+            else:
+                ctx.violation(Finding('R-WINDSCAN', wr.relpath, 'wind.__gettimestep', st, 'the scan skips %s records but %s records lie between two time headers (as counted for the first '
+                                      'step): it lands on a data/dummy record, stops, and files with more than two steps are cut short' % (got, inv)))
+    # ---------------- R-SELPARAM: no selector parameter of a record-reader method is ignored
+    ctx.rule('R-SELPARAM', 'record readers: every parameter of every method is read in its body (a selector that is accepted is also used/forwarded)')
+    npar = 0
+    for fmt in ('uamiv', 'temperature', 'height_pressure', 'humidity', 'vertical_diffusivity', 'wind', 'one3d'):
+        m = src.mod(CAMX + fmt + '/Read.py')
+        for q, fn in sorted(m.functions.items()):
+            if '<locals>' in q or 'Test' in q or q.split('.')[-1].startswith('test') or q.split('.')[-1] in ('runTest', 'setUp'):
+                continue
+            ps = [a.arg for a in fn.args.args[1:]] + [a.arg for a in fn.args.kwonlyargs]
+            if not ps:
+                continue
+            loads = set(n.id for n in ast.walk(fn) if isinstance(n, ast.Name) and isinstance(n.ctx, ast.Load))
+            dead = [p_ for p_ in ps if p_ not in loads]
+            npar += len(ps)
+            if dead:
+                ctx.violation(Finding('R-SELPARAM', m.relpath, q, fn.body[-1] if not isinstance(fn.body[0], ast.Expr) or len(fn.body) < 2 else fn.body[1],
+                                      'parameter %s of %s is never read: the caller\'s selection is ignored and the default record is returned (e.g. heights in place of '
+                                      'pressures)' % (dead, q)), oid=q)
+            else:
+                ctx.ok('R-SELPARAM', '%s:%s' % (fmt, q), 'src/PseudoNetCDF/%s %s' % (m.relpath, q), '%d parameters all read' % len(ps))
+    ctx.floor('parameters of record-reader methods', npar, 60)
     # ---------------- R-API on the record readers
     n = 0
     for fmt in ('uamiv', 'temperature', 'height_pressure', 'humidity', 'vertical_diffusivity', 'wind', 'one3d'):
